@@ -436,6 +436,25 @@ impl Property for P {
                 dump.1.set(true);
                 break;
             }
+            // "with all other guarantees intact": a configured symlink resolves to the file that
+            // holds the newest record (C16's clause, after a kill at any point and a restart)
+            if cfg.symlink {
+                let want = fin.fam.iter().rev().find(|f| !f.parsed.gz).map(|f| f.name.clone());
+                match std::fs::read_link(&rj.link) {
+                    Ok(t) => {
+                        if t.file_name().map(|n| n.to_string_lossy().to_string()) != want {
+                            out.set_fail(format!("after-restart:symlink-does-not-point-to-current-file@{point}"), format!("{what}: symlink -> {t:?}, the file written last is {want:?}"));
+                            dump.1.set(true);
+                            break;
+                        }
+                    }
+                    Err(e) => {
+                        out.set_fail(format!("after-restart:symlink-missing@{point}"), format!("{what}: {e}"));
+                        dump.1.set(true);
+                        break;
+                    }
+                }
+            }
             // old records that survived the kill are preserved, as far as the limits permit:
             // the survivors form a contiguous tail
             let ffirst = fin.records.first().copied().unwrap_or(u32::MAX);
